@@ -203,3 +203,34 @@ def copy_vs_deepcopy(n: int):
     sc.add(3)
     assert len(s) == 2
     assert list(outer)[0] is inner and outer[:] is not outer and outer[:][0] is inner
+
+
+def _gen_that_raises(flag, xs):
+    if flag:
+        raise RuntimeError("refused")
+    yield from xs
+
+
+def _stored_then_listed(flag, xs):
+    items = _gen_that_raises(flag, xs)
+    return list(items)
+
+
+@lemma
+def generator_function_raises_when_consumed_not_when_called(flag: bool, n: int):
+    raised = False
+    got = None
+    try:
+        got = _stored_then_listed(flag, [1, n])
+    except RuntimeError:
+        raised = True
+    assert raised == flag and implies(not flag, got == [1, n])
+    g = _gen_that_raises(True, [])
+    where = 0
+    try:
+        where = 1
+        l = list(g)
+        where = 2
+    except RuntimeError:
+        pass
+    assert where == 1, "calling the generator function runs nothing; the exception comes out of list()"
